@@ -139,6 +139,19 @@ def make_input(r, kind):
         if c < 0.9:
             return text[:r.randrange(len(text) + 1)]
         return ')))' + text + '((('
+    if kind == 'deep':
+        # nesting far beyond the interpreter's recursion limit, at a random
+        # token position (a name, a sort, a binder, a term, a whole command)
+        s = workload.small_script(r, 'tiny')
+        toks = refreader.lex(refreader.render(s.nested()))
+        idx = [i for i, t in enumerate(toks) if t not in '()']
+        n = r.choice([1100, 1600, 2600])
+        if idx and r.random() < 0.85:
+            i = r.choice(idx)
+            toks = toks[:i] + ['('] * n + [toks[i]] + [')'] * n + toks[i + 1:]
+        else:
+            toks = ['('] * n + toks + [')'] * n
+        return ' '.join(toks) + '\n'
     raise ValueError(kind)
 
 
@@ -255,6 +268,11 @@ def usage_cases(r, base):
                        outfile_name='no-such-dir/out.smt2')))
     cases.append(('output-is-directory',
                   dict(input_text=text, spec=rules, outfile_name='tmp')))
+    # the output path is the input file itself (it would be overwritten by
+    # the first accepted step)
+    cases.append(('output-is-input',
+                  dict(input_text=text, spec=rules, infile_name='in.smt2',
+                       outfile_name='in.smt2')))
     cases.append(('jobs-zero',
                   dict(input_text=text, spec=rules, opts=['-j', '0'])))
     return cases
@@ -422,10 +440,14 @@ def shard(args):
                     run_usage(res, base, name, kw, entry)
         for i in range(args['n']):
             kind = ['wellformed', 'fuzzed', 'illformed', 'unbalanced',
-                    'fuzzed', 'illformed'][i % 6]
+                    'fuzzed', 'illformed', 'deep'][i % 7]
             text = make_input(r, kind)
             fam = r.choice([['all'], ['all'], ['has'], ['ntok'], ['count'],
                             ['hash']])
+            if kind == 'deep':
+                # (peeling thousands of levels one by one would only take
+                # time: commands that let whole commands go)
+                fam = r.choice([['all'], ['hash']])
             rules, pred = workload.pick_spec(r, text, families=fam)
             binout = None
             if r.random() < 0.2:
@@ -554,7 +576,7 @@ def run(ctx):
         'SIGINT is sent to the main pid only'
     ]
     ctx.judge_watchdog('runs')
-    if ctx.counters.get('usage_error_cases', 0) < 30:
+    if ctx.counters.get('usage_error_cases', 0) < 32:
         ctx.inconclusive_because('usage-error cases incomplete')
 
 
